@@ -714,6 +714,121 @@ theorem projs_valsOf_flatten (k : V) (parts : D) :
   | nil => rfl
   | cons p ps ih => simp only [map_cons, flatten_cons, ih, valsOf_append]; simp [projs]
 
+/-! ### joins of co-partitioned inputs -/
+
+/-- what the join emits for one left element (depends on the right side only through its matches) -/
+def leftOne (v : JVar) (k1 k2 : V → V) (rs : List V) (l : V) : List V :=
+  let ms := rs.filter fun r => k2 r = k1 l
+  match v with
+  | .inner => ms.map fun r => V.pair (k1 l) (V.pair l r)
+  | .left => if ms.isEmpty then [V.pair (k1 l) (V.pair l .none)]
+             else ms.map fun r => V.pair (k1 l) (V.pair l (.some r))
+  | .outer => if ms.isEmpty then [V.pair (k1 l) (V.pair (.some l) .none)]
+              else ms.map fun r => V.pair (k1 l) (V.pair (.some l) (.some r))
+
+/-- the unmatched right elements of an outer join -/
+def rightPart (v : JVar) (k1 k2 : V → V) (ls rs : List V) : List V :=
+  match v with
+  | .outer => (rs.filter fun r => (ls.filter fun l => k1 l = k2 r).isEmpty).map fun r =>
+      V.pair (k2 r) (V.pair .none (.some r))
+  | _ => []
+
+theorem joinS_eq (v : JVar) (k1 k2 : V → V) (ls rs : List V) :
+    joinS v k1 k2 ls rs = ls.flatMap (leftOne v k1 k2 rs) ++ rightPart v k1 k2 ls rs := by
+  cases v <;> rfl
+
+theorem leftOne_congr (v : JVar) (k1 k2 : V → V) (rs rs' : List V) (l : V)
+    (h : (rs.filter fun r => k2 r = k1 l) = rs'.filter fun r => k2 r = k1 l) :
+    leftOne v k1 k2 rs l = leftOne v k1 k2 rs' l := by
+  simp only [leftOne, h]
+
+theorem flatMap_congr' {f g : V → List V} {l : List V} (h : ∀ a ∈ l, f a = g a) :
+    l.flatMap f = l.flatMap g := by
+  induction l with
+  | nil => rfl
+  | cons a l ih =>
+    simp only [flatMap_cons, h a (by simp), ih (fun b hb => h b (by simp [hb]))]
+
+theorem filter_nil_of_forall {p : V → Bool} {l : List V} (h : ∀ a ∈ l, p a = false) : l.filter p = [] := by
+  rw [filter_eq_nil_iff]; intro a ha; simp [h a ha]
+
+/-- the join of two unions whose cross pairs never match is the union of the two joins -/
+theorem joinS_append (v : JVar) (k1 k2 : V → V) (l X r Y : List V)
+    (h1 : ∀ a ∈ l, ∀ b ∈ Y, k1 a ≠ k2 b) (h2 : ∀ a ∈ X, ∀ b ∈ r, k1 a ≠ k2 b) :
+    (joinS v k1 k2 (l ++ X) (r ++ Y)).Perm (joinS v k1 k2 l r ++ joinS v k1 k2 X Y) := by
+  simp only [joinS_eq, flatMap_append]
+  have e1 : l.flatMap (leftOne v k1 k2 (r ++ Y)) = l.flatMap (leftOne v k1 k2 r) := by
+    apply flatMap_congr'
+    intro a ha
+    apply leftOne_congr
+    rw [filter_append, filter_nil_of_forall (l := Y), append_nil]
+    intro b hb; simpa using fun e => h1 a ha b hb e.symm
+  have e2 : X.flatMap (leftOne v k1 k2 (r ++ Y)) = X.flatMap (leftOne v k1 k2 Y) := by
+    apply flatMap_congr'
+    intro a ha
+    apply leftOne_congr
+    rw [filter_append, filter_nil_of_forall (l := r), nil_append]
+    intro b hb; simpa using fun e => h2 a ha b hb e.symm
+  have e3 : rightPart v k1 k2 (l ++ X) (r ++ Y) = rightPart v k1 k2 l r ++ rightPart v k1 k2 X Y := by
+    cases v <;> simp only [rightPart, append_nil]
+    rw [filter_append, map_append]
+    congr 1
+    · congr 1
+      apply filter_congr
+      intro b hb
+      rw [filter_append, filter_nil_of_forall (l := X), append_nil]
+      intro a ha; simpa using h2 a ha b hb
+    · congr 1
+      apply filter_congr
+      intro b hb
+      rw [filter_append, filter_nil_of_forall (l := l), nil_append]
+      intro a ha; simpa using h1 a ha b hb
+  rw [e1, e2, e3]
+  -- (Ll ++ LX) ++ (Rl ++ RX) ~ (Ll ++ Rl) ++ (LX ++ RX)
+  simp only [append_assoc]
+  refine Perm.append_left _ ?_
+  simp only [← append_assoc]
+  exact (perm_append_comm (l₁ := X.flatMap _) (l₂ := rightPart v k1 k2 l r)).append_right _
+
+/-- every element of replica `j` has `h (key p) % n = off + j` -/
+def CoPart (h : V → Nat) (key : V → V) (n off : Nat) (d : D) : Prop :=
+  ∀ j l, d[j]? = some l → ∀ p ∈ l, h (key p) % n = off + j
+
+theorem CoPart.tail {h key n off l d} (hi : CoPart h key n off (l :: d)) : CoPart h key n (off + 1) d := by
+  intro j l' hj p hp
+  have := hi (j + 1) l' (by simpa using hj) p hp
+  omega
+
+theorem CoPart.mem_flatten {h key n off} {d : D} (hi : CoPart h key n off d) (q : V)
+    (hq : q ∈ d.flatten) : ∃ j, h (key q) % n = off + j := by
+  obtain ⟨l, hl, hql⟩ := List.mem_flatten.mp hq
+  obtain ⟨j, hj⟩ := getElem?_of_mem hl
+  exact ⟨j, hi j l hj q hql⟩
+
+theorem join_copart (h : V → Nat) (v : JVar) (k1 k2 : V → V) (n off : Nat) (x y : D)
+    (hl : x.length = y.length) (hx : CoPart h k1 n off x) (hy : CoPart h k2 n off y) :
+    (zipWith (joinS v k1 k2) x y).flatten.Perm (joinS v k1 k2 x.flatten y.flatten) := by
+  induction x generalizing y off with
+  | nil =>
+    cases y with
+    | nil => cases v <;> simp [joinS]
+    | cons _ _ => simp at hl
+  | cons l x ih =>
+    cases y with
+    | nil => simp at hl
+    | cons r y =>
+      simp only [zipWith_cons_cons, flatten_cons]
+      refine Perm.trans ?_ (joinS_append v k1 k2 l x.flatten r y.flatten ?_ ?_).symm
+      · exact Perm.append_left _ (ih _ _ (by simpa using hl) hx.tail hy.tail)
+      · intro a ha b hb e
+        have h1 : h (k1 a) % n = off := by simpa using hx 0 l (by simp) a ha
+        obtain ⟨j, h2⟩ := hy.tail.mem_flatten b hb
+        rw [e] at h1; omega
+      · intro a ha b hb e
+        have h1 : h (k2 b) % n = off := by simpa using hy 0 r (by simp) b hb
+        obtain ⟨j, h2⟩ := hx.tail.mem_flatten a ha
+        rw [e] at h2; omega
+
 theorem stRel_init (h : V → Nat) : StRel h ({} : St D) ({} : St (List V)) := ⟨All2.nil, All2.nil⟩
 
 /-- the simulation: on jobs of the fragment the parallel and the sequential run stay related -/
